@@ -11,6 +11,7 @@ Semantics assumed (reported in every evidence file):
     STrueDiv (int/int true division kept exact as a rational until int()/ceil()).
 """
 import itertools
+import os
 import time
 
 import z3
@@ -730,6 +731,7 @@ class Ctx:
         self.sibling_ok = {}       # index -> bool (sibling feasible)
         self.pc = []
         self.obls = []
+        self.covers = []           # (name, path condition) reachability checks: must be satisfiable
         self.inputs = {}           # name -> z3 term, for counterexample read-out
         self.funcs = {}            # name -> z3 FuncDecl (arrays etc.)
         self.counter = itertools.count()
@@ -925,6 +927,12 @@ class Ctx:
                                     self.cur_line, tuple(self.decisions[:self.pos]), meta, kind))
         # later code on this path may rely on it (it is checked separately)
         self.assume(g)
+
+    def cover(self, name):
+        """reachability check for a path that ends without completing (the arbitrary-iteration path of an
+        invariant loop): its assumptions, minus the goals assumed after being recorded, must be satisfiable"""
+        goal_ids = {ob.goal.get_id() for ob in self.obls}
+        self.covers.append((name, [a for a in self.pc if a.get_id() not in goal_ids]))
 
     def note(self, s):
         if s not in self.notes:
@@ -1134,6 +1142,16 @@ def discharge(ob, inputs, timeout_ms=20000, use_cvc5=True, minimise=True):
     backend = "z3-" + z3.get_version_string()
     r, s, dt = check_sat(ob.assumptions, [neg], min(timeout_ms, 4000))
     if r == z3.unknown:
+        # the same z3 as a separate process on the exported query (non-incremental front end: its
+        # preprocessing decides congruence-heavy mixed Int/BV queries the incremental API core gives up on)
+        v, dtc = z3_cli_check(ob.assumptions, neg, min(timeout_ms, 20000))
+        dt += dtc
+        if os.environ.get("PYVC_DEBUG"):
+            print("z3-cli:", ob.name, v, round(dtc, 2), flush=True)
+        if v == "unsat":
+            return {"name": ob.name, "fn": ob.fn, "line": ob.lineno, "kind": ob.kind, "time_s": round(dt, 4),
+                    "backend": "z3-" + z3.get_version_string() + " CLI (exported query)", "verdict": "proved"}
+    if r == z3.unknown:
         r2, s2, dt2 = check_sat(ob.assumptions, [neg], timeout_ms, nl=False)
         dt += dt2
         if r2 != z3.unknown:
@@ -1173,23 +1191,64 @@ def discharge(ob, inputs, timeout_ms=20000, use_cvc5=True, minimise=True):
             res["backend"] = "cvc5-1.0.3 (after z3 unknown)"
             return res
         res["cvc5"] = v
+        # mixed integer / bit-vector queries (bv2nat, int2bv): cvc5's integer translation of the bit-vectors
+        smt_probe = s.to_smt2()
+        if any(w in smt_probe for w in ("bv2nat", "bv2int", "int2bv", "ubv_to_int", "int_to_bv")):
+            v2, dt3 = cvc5_check(s, timeout_ms, extra=("--solve-bv-as-int=sum",))
+            res["time_s"] = round(dt + dt2 + dt3, 4)
+            if v2 == "unsat":
+                res["verdict"] = "proved"
+                res["backend"] = "cvc5-1.0.3 --solve-bv-as-int=sum (after z3 unknown)"
+                return res
+            res["cvc5_bv_as_int"] = v2
     res["verdict"] = "unknown"
     return res
 
 
-def cvc5_check(solver, timeout_ms):
+def z3_cli_check(assumptions, neg, timeout_ms):
+    import os
+    import shutil
+    import subprocess
+    import tempfile
+    exe = shutil.which("z3-new")
+    if exe is None:
+        return "error:no z3-new", 0.0
+    t0 = time.time()
+    try:
+        s = z3.Solver()
+        for a in assumptions:
+            s.add(a)
+        s.add(neg)
+        with tempfile.NamedTemporaryFile("w", suffix=".smt2", delete=False) as f:
+            f.write("(set-logic ALL)\n" + s.to_smt2())
+            fn = f.name
+        try:
+            p = subprocess.run([exe, f"-T:{max(1, int(timeout_ms / 1000))}", fn], capture_output=True, text=True,
+                               timeout=timeout_ms / 1000 + 10)
+            out = p.stdout.strip().splitlines()
+            v = out[0].strip() if out else "error:" + p.stderr.strip()[:200]
+        finally:
+            os.unlink(fn)
+    except Exception as e:  # pragma: no cover
+        v = f"error:{e}"
+    return v, time.time() - t0
+
+
+def cvc5_check(solver, timeout_ms, extra=()):
     import os
     import subprocess
     import tempfile
     t0 = time.time()
     try:
         smt = solver.to_smt2()
+        # z3 5.x prints the SMT-LIB 2.7 names; cvc5 1.0 knows the older ones
+        smt = smt.replace("ubv_to_int", "bv2nat").replace("int_to_bv", "int2bv")
         smt = "(set-logic ALL)\n" + smt
         with tempfile.NamedTemporaryFile("w", suffix=".smt2", delete=False) as f:
             f.write(smt)
             fn = f.name
         try:
-            p = subprocess.run(["/usr/bin/cvc5", "--lang=smt2", f"--tlimit={int(timeout_ms)}", fn],
+            p = subprocess.run(["/usr/bin/cvc5", "--lang=smt2", f"--tlimit={int(timeout_ms)}", *extra, fn],
                                capture_output=True, text=True, timeout=timeout_ms / 1000 + 10)
             out = p.stdout.strip().splitlines()
             v = out[0].strip() if out else "error:" + p.stderr.strip()[:200]
